@@ -52,8 +52,36 @@ def make_case(seed, index, tier):
     return {'seed': seed, 'index': index, 'tier': tier}
 
 
+def withdrawn_by_cleanup(rng):
+    """a block is aborted right after it spawned a task; the clean-up of an older sibling, run
+    while the block closes its children, cancels that task before it ever started"""
+    delay = rng.choice([0, 0.5, 1, 2])
+    body = []
+    if delay:
+        body.append({'op': 'wait', 'n': {'k': 'delay', 'd': delay}, 'id': 's1'})
+    body.append({'op': 'spawn', 'id': 's2', 'scope': 's8', 'child': {
+        'name': 'late', 'volatile': rng.random() < 0.3,
+        'steps': [{'op': 'wait', 'n': {'k': 'delay', 'd': 1}, 'id': 's3'}]}})
+    body.append({'op': 'raise', 'kind': rng.choice(['err', 'key', 'eq']), 'tag': 'e1',
+                 'id': 's4'})
+    early = {'name': 'early', 'volatile': rng.random() < 0.3, 'steps': [
+        {'op': 'guard', 'id': 's5', 'cancel': 'late',
+         'body': [{'op': 'wait', 'n': {'k': 'delay', 'd': 100}, 'id': 's6'}],
+         'child': {'name': 'successor', 'volatile': False, 'steps': []}}]}
+    steps = [{'op': 'try', 'id': 's7', 'body': [
+        {'op': 'scope', 'id': 's8', 'n': None, 'catch': False, 'children': [early],
+         'body': body}]}]
+    for _ in range(rng.randint(0, 2)):
+        steps.append({'op': 'await_task', 'task': 'late', 'catch': True, 'id': 's%d' % (
+            9 + len(steps))})
+    steps.append({'op': 'wait', 'n': {'k': 'delay', 'd': 1}, 'id': 's20'})
+    return {'objects': {}, 'roots': [{'name': 'r0', 'steps': steps}], 'start': 0, 'till': None}
+
+
 def build(case):
     rng = random.Random('%s/%s/c06' % (case['seed'], case['index']))
+    if case['index'] % 25 == 24:
+        return withdrawn_by_cleanup(rng), rng
     gen = Gen(rng, weights=WEIGHTS, max_depth=3, max_steps=4, max_roots=3)
     return gen.program(), rng
 
